@@ -34,6 +34,9 @@ class Rows(PyObj):
             return Model(lambda c, *a, **k: self, 'astype')
         if name == 'dtype':
             return 'dtype'
+        if name in ('any', 'all'):
+            # a reduction of the pixel values: depends on the data, either answer is possible
+            return Model(lambda c, *a, **k: c.free_branch(), 'ndarray.' + name)
         raise Undecided("array view .%s" % name)
 
     def _slice(self, ctx, key):
